@@ -268,17 +268,19 @@ void xd_check(xd_t *d, int want)
     ld worst_berr = 0;
     for (int k = 0; k < d->nrhs; ++k) {
         ld w = backward_error(vt, &F0, op, d->xval, d->ldx, d->b0, d->ldb, k);
+        int ntiny = 0; ld wadd = backward_error_add(vt, &F0, op, d->xval, d->ldx, d->b0, d->ldb, k, &ntiny);
+        if (ntiny) feat_add("berr_zero_denominator_rows", ntiny);
         if (w > worst_berr) worst_berr = w;
         double br = rs_get(vt, d->berr, k), fr = rs_get(vt, d->ferr, k);
         if (wellcond) {
-            if (!(w <= 40 * (n + 1) * ceps)) verdict_fail("C07:backward_error_original_system", "rhs %d: componentwise backward error of the returned X against the original op(A)X=B is %.3Le > 40(n+1)eps = %.3Le (trans=%d equed=%d stype=%s fact=%d, kappa=%.2Lg)", k, w, 40 * (n + 1) * ceps, (int)d->trans, (int)d->equed, M->stype ? "NR" : "NC", (int)d->fact, kappa);
+            if (!(wadd <= 40 * (n + 1) * ceps)) verdict_fail("C07:backward_error_original_system", "rhs %d: componentwise backward error of the returned X against the original op(A)X=B is %.3Le > 40(n+1)eps = %.3Le (trans=%d equed=%d stype=%s fact=%d, kappa=%.2Lg)", k, wadd, 40 * (n + 1) * ceps, (int)d->trans, (int)d->equed, M->stype ? "NR" : "NC", (int)d->fact, kappa);
         }
         if (want) {
             if (br == SENT || fr == SENT) verdict_fail("C13:berr_ferr_not_written", "berr/ferr of rhs %d not written (berr=%g ferr=%g)", k, br, fr);
             if (isfinite((double)w) && inv_ok && kappa < 1e-2L / ceps) {
                 ld tolb = (nzrow + 4) * ceps + 4 * ceps;
                 if (!(fabsl((ld)br - w) <= tolb + 0.5L * w)) verdict_fail("C13:berr_not_truthful", "rhs %d: returned berr=%.3e but the true componentwise backward error of the returned X is %.3Le (tolerance %.2Le)", k, br, w, tolb);
-                if (kappa < 1 / sqrtl(eps) && !((ld)br <= 40 * (n + 1) * ceps)) verdict_fail("C13:berr_large_on_well_conditioned", "rhs %d: berr=%.3e > 40(n+1)eps with kappa=%.2Lg", k, br, kappa);
+                if (kappa < 1 / sqrtl(eps) && !ntiny && !((ld)br <= 40 * (n + 1) * ceps)) verdict_fail("C13:berr_large_on_well_conditioned", "rhs %d: berr=%.3e > 40(n+1)eps with kappa=%.2Lg", k, br, kappa);
             }
         }
     }
